@@ -357,8 +357,10 @@ pub fn c07(tier: &str, seed: u64) -> Vec<Case> {
     }
     for (p, tag) in all {
         if tag == "nsec-unordered" { continue; }
-        let comp = match p.build_bytes_vec_compressed() { Ok(b) => b, Err(_) => continue };
-        let plain = match p.build_bytes_vec() { Ok(b) => b, Err(_) => continue };
+        // (every packet of this generator serialises with both writers: a compressing writer that starts refusing some of
+        // them has stopped writing pointers altogether)
+        let comp = match p.build_bytes_vec_compressed() { Ok(b) => b, Err(_) => { v.push(Case::oracle_only().tag(&tag).fail("not-framed", "build_bytes_vec_compressed refuses a packet the plain writer's generator built".into())); continue; } };
+        let plain = match p.build_bytes_vec() { Ok(b) => b, Err(_) => { v.push(Case::oracle_only().tag(&tag).fail("not-framed", "build_bytes_vec refuses a generated packet".into())); continue; } };
         let ptxt = text::packet(&p);
         let mut c = Case::new(format!("build.comp {}", ptxt), format!("ok {}", text::hex(&comp))).tag(&tag);
         let (wc, wp) = match (walker::walk(&comp), walker::walk(&plain)) { (Some(a), Some(b)) => (a, b), _ => { v.push(c.fail("not-framed", "".into())); continue; } };
@@ -394,7 +396,8 @@ pub fn c07(tier: &str, seed: u64) -> Vec<Case> {
         if comp.len() > 16383 { c = c.tag("beyond-16383"); }
         v.push(c);
         // the writer-based entry point at a non-zero offset emits the same message
-        if comp.len() < 3000 {
+        let large = matches!(tag.as_str(), "big" | "boundary-16383" | "many-names" | "many-suffixes" | "max-size");
+        if comp.len() < 3000 || large {
             for start in [2usize, 13] {
                 let mut cur = Cursor::new(vec![0xEEu8; start]);
                 cur.set_position(start as u64);
@@ -418,7 +421,7 @@ pub fn c07(tier: &str, seed: u64) -> Vec<Case> {
             }
             // ... and so does a sink that accepts 1, 3 or 5 bytes per call (and interrupts every other call), at
             // offsets 0 and 2: the pointers count bytes accepted, not bytes offered
-            if pointers > 0 {
+            if pointers > 0 && comp.len() < 3000 {
                 for (chunk, prefix) in [(1usize, 0usize), (3, 2), (5, 0)] {
                     let mut c3 = Case::oracle_only().tag("slow-writer");
                     if !slow_sink_same(&p, &comp, chunk, prefix) { c3 = c3.fail("offset-writer-differs", format!("write_compressed_to through a writer that accepts {} byte(s) per call, at stream offset {}, does not emit the message of build_bytes_vec_compressed", chunk, prefix)); }
